@@ -67,7 +67,7 @@ def api_case(draw, sub="api"):
     if sub == "cli":
         case["cores"] = draw(st.sampled_from([1, 1, 2, 3]))
         # later stages work on the chosen orientation: poly-A trimming and -l are direction-sensitive
-        case["later"] = draw(st.sampled_from([None, None, "poly_a", "length"]))
+        case["later"] = draw(st.sampled_from([None, None, "poly_a", "length", "prefix_suffix"]))
         case["rename"] = draw(st.sampled_from([None, None, "{id} rc={rc} an={adapter_name}"])) if not paired else \
             draw(st.sampled_from([None, None, "{id} an={r1.adapter_name},{r2.adapter_name}"]))
     return case
@@ -187,6 +187,9 @@ def check_cli(case, ctx):
     elif case.get("later") == "length":
         o["length1"] = -6
         ctx.label("later-stage:length")
+    elif case.get("later") == "prefix_suffix" and not case.get("rename"):
+        o["prefix"], o["suffix"] = "P_", " S"  # the ' rc' marker must still be there
+        ctx.label("later-stage:-x/-y")
     cores = case.get("cores", 1)
     reps = 1 if cores == 1 else 5  # several chunks, so that every worker flags some reads
     rs1 = list(case["reads1"]) * reps
@@ -227,7 +230,7 @@ def check_cli(case, ctx):
         raise Violation(f"read_counts.reverse_complemented={r.json['read_counts']['reverse_complemented']} but "
                         f"{n_rc} reads are flagged ({args})")
     # metamorphic: without --revcomp each read equals the forward result or is unrelated to the rc one
-    if not paired and not case.get("rename"):
+    if not paired and not case.get("rename") and case.get("later") != "prefix_suffix":  # (the relation reads ' rc' at the name's end)
         args2 = [a for a in args if a != "--revcomp"]
         rf = cli.run(args2 + names, files)
         fwd = [tuple(x) for x in rf.records("out1.fastq")]
